@@ -35,15 +35,23 @@ def processRead (T : Table) (lens : List Nat) (left chunk : Bytes) :
   let b := left ++ chunk
   decodeLoop T lens (chunk.length == bufSize) (b.length + 1) b []
 
-/-- the whole reader on a list of successful reads (then the reader fails, e.g. EOF):
-all messages and the final left-over (dropped by the implementation) -/
-def readAll (T : Table) (lens : List Nat) : List Bytes → Bytes → List Out →
+/-- the whole reader on a list of successful reads followed by a failing one. `eof` says
+whether that final error is io.EOF: then the held-back bytes are decoded with
+`canHaveMoreData = false` (what still cannot be decoded is dropped); any other error
+(cancellation, a real read error) returns at once. Result: all messages and the bytes
+that were never turned into a message. -/
+def readAll (T : Table) (lens : List Nat) (eof : Bool) : List Bytes → Bytes → List Out →
     Except Panic (List Out × Bytes)
-  | [], left, acc => .ok (acc, left)
+  | [], left, acc =>
+    if eof then
+      match decodeLoop T lens false (left.length + 1) left [] with
+      | .error e => .error e
+      | .ok (out, left') => .ok (acc ++ out, left')
+    else .ok (acc, left)
   | c :: cs, left, acc =>
     match processRead T lens left c with
     | .error e => .error e
-    | .ok (out, left') => readAll T lens cs left' (acc ++ out)
+    | .ok (out, left') => readAll T lens eof cs left' (acc ++ out)
 
 /-- how `io.Reader` delivers a byte string when each Read fills the buffer
 if it can: full 256-byte reads, then one short (possibly empty) read -/
